@@ -87,7 +87,8 @@ def is_masklike(t):
     return False
 
 
-CMP = {"lt", "gt", "lte", "gte", "eq", "noteq", "lte", "gte"}
+CMP = {"lt", "gt", "lte", "gte", "eq", "noteq", "greater", "less", "greater_equal", "less_equal", "equal", "not_equal",
+       "logical_xor", "isfinite", "isinf"}
 
 
 def is_boolish(t):
@@ -185,7 +186,10 @@ def fold(t):
 
 # ---------------------------------------------------------------- locality table (TRUSTED)
 # pointwise NumPy functions / methods: value at p depends on the arguments at p only
-POINTWISE = {"abs", "absolute", "sqrt", "astype", "copy", "array", "asarray", "ascontiguousarray", "minimum",
+POINTWISE = {"fabs", "square", "multiply", "add", "subtract", "divide", "true_divide", "power", "negative", "sign", "greater",
+             "less", "greater_equal", "less_equal", "equal", "not_equal", "logical_xor", "isfinite", "isinf", "rint", "ceil",
+             "trunc", "log", "log10", "sin", "cos", "arctan2", "hypot", "float32", "float64", "uint8", "nan_to_num",
+             "abs", "absolute", "sqrt", "astype", "copy", "array", "asarray", "ascontiguousarray", "minimum",
              "maximum", "clip", "exp", "exp2", "log2", "isnan", "real", "floor", "float", "bool", "int", "logical_or"}
 # pure functions with arbitrary dependence on their (array) arguments
 GLOBAL = {"table_lookup", "grey_erosion", "grey_dilation", "gaussian_filter", "label", "distance_transform_edt",
@@ -612,8 +616,18 @@ class Interp:
             raise Unsupported("call of a local value")
         if isinstance(n.func, ast.Name) and f in INLINE and f in self.m.funcs:
             return self.inline(self.m.funcs[f], args, kws)
+        if f in ("zeros_like", "ones_like", "empty_like", "full_like") and args and not any(
+                not is_const(a) for a in args[1:] + list(kws.values())):
+            return Const(f + "(..)")                          # shape and dtype of the first argument only
         if f == "slice":
             return Const("slice") if not arr else self._unsupported("slice of arrays")
+        if f in ("binary_erosion", "convolve", "correlate"):
+            # keyword spellings of the positional arguments: structure= / weights=
+            kwname = "structure" if f == "binary_erosion" else "weights"
+            if len(n.args) == 1 and kwname in kws:
+                n = ast.Call(func=n.func, args=[n.args[0], [k.value for k in n.keywords if k.arg == kwname][0]],
+                             keywords=[k for k in n.keywords if k.arg != kwname])
+                args = args + [kws.pop(kwname)]
         if f == "binary_erosion":
             # binary_erosion(m, generate_binary_structure(2, 2), border_value=0): 3x3 erosion, False beyond the border
             if len(args) != 2 or args[1] != Const(BINARY_STRUCTURE):
@@ -654,6 +668,8 @@ class Interp:
         if f == "logical_and" and len(args) == 2 and not kws:
             return And(args[0], args[1])
         if f == "logical_not" and len(args) == 1:
+            return Not(args[0])
+        if f in ("invert", "bitwise_not") and len(args) == 1 and not kws and is_boolish(args[0]):
             return Not(args[0])
         if f in CONVERSIONS and len(arr) == 1 and is_masklike(args[0]) and f != "copy":
             return args[0]                                   # np.asarray(mask, bool), np.array(mask, np.uint8): truthiness kept
